@@ -52,8 +52,8 @@ def c17_queries(enc):
 
 
 CONFIGS = {
-    'quick': [('1u-1p1m-2c1r', 1, 1, 2, 1, 1, 9, ('pop', 'try_pop', 'pop_timeout'), 8),
-              ('1u-0p-2c1r', 0, 0, 2, 1, 1, 7, ('pop', 'pop_timeout'), 8)],
+    'quick': [('1u-1p1m-2c1r', 1, 1, 2, 1, 1, 9, ('pop', 'try_pop', 'pop_timeout'), 10),
+              ('1u-0p-2c1r', 0, 0, 2, 1, 1, 7, ('pop', 'pop_timeout'), 10)],
     'thorough': [('1u-1p1m-2c1r', 1, 1, 2, 1, 1, 11, ('pop', 'try_pop', 'pop_timeout'), 14),
                  ('2u-1p1m-2c2r', 1, 1, 2, 2, 2, 12, ('pop', 'try_pop', 'pop_timeout'), 11),
                  ('2u-0p-3c1r', 0, 0, 3, 1, 2, 10, ('pop', 'pop_timeout'), 11)],
@@ -64,6 +64,7 @@ KNOWN = {'unblock-reaches-a-blocked-receiver/known-finding-still-present': 'pop-
 def run(L, rep, tier, seed):
     run_configs(L, rep, tier, seed, 'C17', CONFIGS[tier], c17_queries, KNOWN, timing=False)
     timing_bounds(L, rep, tier, seed)
+    c07.single_call_contracts(L, rep, tier, seed, 'C17')
     # try_recv never blocks: structural check on the unfolded MIR of try_pop (no park / receive operation at all)
     from mirsym.harness import Session
     from mirsym.sync import World
